@@ -44,6 +44,9 @@ import _db
 import vf
 
 
+TS_CLASS = "timestamps differ between the live route and the log routes"   # (routecheck: tsClass)
+
+
 def _show(mm):
     b = _db.show_beh([s for s in mm["behaviour"] if s["a"] != "Routes"])
     if len(b) > 1500:
@@ -258,8 +261,16 @@ def replay(ctx, path):
         return
     tp = os.path.join(ctx.scratch, "rerun.ndjson")
     out = os.path.join(ctx.scratch, "rerun.json")
-    ctx.run([binp, "rerun", "-in", path, "-out", tp, "-res", out])
-    res = json.load(open(out))
+    # a timestamp difference between the live route and the log routes depends on where a millisecond boundary
+    # falls: the sequence is executed again until a difference shows (up to 30 times)
+    rounds = 30 if str(mm.get("what", "")).startswith(TS_CLASS) else 1
+    for k in range(rounds):
+        ctx.run([binp, "rerun", "-in", path, "-out", tp, "-res", out])
+        res = json.load(open(out))
+        if res.get("mismatches"):
+            if rounds > 1:
+                ctx.log("a route difference showed in execution %d of the sequence" % (k + 1))
+            break
     for x in res.get("mismatches") or []:
         ctx.violation("replicas that applied the same log differ: %s" % x["what"][:600], path)
     ok, hw, total, r = _db.validate(ctx, tp, mm.get("cfg") or "db-trace-c06.cfg", "rerun")
